@@ -1,5 +1,6 @@
 import ESV.Comp.BackSemMach
 import ESV.Comp.BackSemSim
+import ESV.Comp.BackSemDec
 import ESV.Props.Tables
 /-
 Back-end correctness, last pass: `OpsLabelJumpToRemover` with a correct label table takes labelled code without
@@ -143,25 +144,6 @@ theorem last_op_before (its : List LItem) : ∀ n c, n ≤ its.length → cntOps
       · exact h5 j hj1 hj
       · have : j = n := by omega
         subst this; exact ⟨z, hz, hl⟩
-
-theorem ctxOK_get : ∀ (its : List LItem) (i : Nat) (x y : LItem), ctxOK its = true → its[i]? = some x → isCtxL x = true →
-    its[i + 1]? = some y → afterCtxOK y = true := by
-  intro its
-  induction its with
-  | nil => intro i x y _ h; simp at h
-  | cons a r ih =>
-    intro i x y hc hx hcx hy
-    cases r with
-    | nil => simp at hy
-    | cons b r' =>
-      simp only [ctxOK, Bool.and_eq_true, Bool.or_eq_true, Bool.not_eq_true'] at hc
-      cases i with
-      | zero =>
-        simp at hx hy; subst hx; subst hy
-        rcases hc.1 with h | h
-        · rw [h] at hcx; cases hcx
-        · exact h
-      | succ i => exact ih i x y hc.2 (by simpa using hx) hcx (by simpa using hy)
 
 theorem jt_not_ctx (n : String) (h : (isJump n || isTest n) = true) : isCtx n = false := by
   have hall : ∀ kv ∈ ESV.Spec.opsWithJump, isCtx kv.1 = false := by decide
